@@ -164,6 +164,10 @@ pub fn run_spec(spec: &BackendSpec, case: &Case, cfg: &CaseCfg, prerepair: bool)
     }
 }
 
+pub const C03_F1_SIG: &str = "C03/projection-rerun-on-ABA-firewall [a projection is re-executed by backward projection although \
+every dependency has the value it read in its previous run: a firewall below it changed and changed back while the \
+projection was not demanded]";
+
 pub const F1_SIG: &str = "C01/stale-value-above-unrepaired-firewall [classifier: the same case passes when the user \
 repairs the transitive firewall callees of every computed node before each query step]";
 
@@ -260,7 +264,11 @@ pub fn worker(ctx: &WorkerCtx, prop: &str) -> Report {
         }
         for (p, kind, detail) in &out.oracle.violations {
             if p == prop || (prop == "C01" && p == "C02") {
-                ctx.violation(&violation_from(p, kind, detail, &cj));
+                let mut v = violation_from(p, kind, detail, &cj);
+                if kind == "projection-rerun-on-ABA-firewall" {
+                    v.signature = C03_F1_SIG.to_string();
+                }
+                ctx.violation(&v);
             } else {
                 rep.count(&format!("other_property_flags_{p}"), 1);
             }
